@@ -304,7 +304,9 @@ def emitBinaryExpression (env : Env) (b : Builder) (binary : BinaryOp) (left rig
       (match deduceConcrete env op.symbol left.typeDesc right.typeDesc with
        | .error e => (.error e, b)
        | .ok ty =>
-         if ty = .bool ∨ ty = .int ∨ ty = .uint ∨ ty = .double ∨ ty = .string ∨ isEnumKind ty ∨ ty.isPointer
+         -- pointers: only `==` / `!=` (after the repair 5a4a210: `ptr < nullptr` is ill-formed C++)
+         if ty = .bool ∨ ty = .int ∨ ty = .uint ∨ ty = .double ∨ ty = .string ∨ isEnumKind ty
+            ∨ (ty.isPointer ∧ (op = .eq ∨ op = .ne))
          then (.ok .bool, b)
          else (.error (unsupported (.concrete ty)), b))
   match tyR with
